@@ -353,7 +353,8 @@ def gather(repo: Repo, rep: Report) -> None:
                 rep.finding("SLC-3", ARRAY, "Array2D._getitem_impl", short(node),
                             "element offset is not <row> * self.shape[1] + <col>", node.lineno)
     if n < 2:
-        raise AnalysisError("gather sites in _getitem_impl vanished")
+        # the gather moved out of _getitem_impl (an accessor, a helper): SLC-3 has nothing to read - undecided, and SLC-G still evaluates
+        rep.undecide("SLC-3", "gather sites in _getitem_impl vanished (the element offset is computed elsewhere)")
 
 
 def _job_2d(args) -> Tuple[str, Any, int]:
